@@ -32,7 +32,7 @@ mod smoke;
 /// properties whose scenario-independent core rule exists as a universal monitor
 /// (harness/src/universal.rs): their checks also run that monitor over the workloads of the other
 /// connection-level checks ("cross mode")
-const CROSS_TARGETS: &[&str] = &["C03", "C04", "C05", "C07", "C08", "C14", "C15", "C19"];
+const CROSS_TARGETS: &[&str] = &["C03", "C04", "C05", "C07", "C08", "C11", "C12", "C14", "C15", "C19"];
 
 fn conn_part(opts: &Opts, f: fn(&Opts, &crate::report::Report)) -> i32 {
     let rep = crate::report::Report::new(opts, "exploration", "cross workload");
